@@ -170,7 +170,7 @@ pub fn wasm(sink: &mut Sink, seed: u64, thorough: bool, alphabet: &str, behaviou
             match r.gen_range(0..11) {
                 0 => WCall::Shape(r.gen_range(0..6)), 1 => WCall::Margin(r.gen_range(0..12)), 2 => WCall::Ecl(r.gen_range(0..4)), 3 => WCall::Version(r.gen_range(1..12)),
                 4 => WCall::ModuleColor(col(&mut r)), 5 => WCall::BackgroundColor(col(&mut r)), 6 => WCall::ImageBackgroundColor(col(&mut r)),
-                7 => WCall::Image(["logo.png", "", "https://e.com/a.png"][r.gen_range(0..3)].to_string()), 8 => WCall::ImageBackgroundShape(r.gen_range(0..3)),
+                7 => WCall::Image(["logo.png", "", "https://e.com/a.png", "a?b=1&c=caf\u{e9}", "Tom & J\u{e9}r\u{f4}me.png"][r.gen_range(0..5)].to_string()), 8 => WCall::ImageBackgroundShape(r.gen_range(0..3)),
                 9 => WCall::ImageSize((r.gen_range(4..60) as f64) / 4.0, (r.gen_range(0..12) as f64) / 4.0),
                 _ => WCall::ImagePosition((0..[2usize, 2, 2, 0, 1, 3][r.gen_range(0..6)]).map(|_| (r.gen_range(20..100) as f64) / 4.0).collect()),
             }
